@@ -56,6 +56,23 @@ def run(ctx: Ctx) -> None:
     for w, num, r, dl, repl in (("W5", 3, 2, "FALSE", "FALSE"), ("W5", 4, 2, "TRUE", "FALSE"), ("W5", 3, 2, "FALSE", "TRUE"), ("W5", 5, 3, "TRUE", "TRUE"),
                                 ("W3", 2, 3, "FALSE", "TRUE"), ("W5", 5, 2, "TRUE", "FALSE"), ("W3", 2, 1, "FALSE", "FALSE")):
         ctx.tlc("MC_Sampler", MODEL_CFG.format(w=w, num=num, r=r, dl=dl, repl=repl), label=f"design-{w}-{num}-{r}-{dl}-{repl}", timeout=3000)
+    # unbounded part: the TLAPS proof of the padding rule (all naturals), re-checked from scratch
+    import shutil
+    import subprocess
+    import tempfile
+    from pathlib import Path
+
+    src = Path(__file__).resolve().parents[3] / "spec" / "proofs" / "SamplerProof.tla"
+    scratch = tempfile.mkdtemp(prefix="dvtlaps_")
+    try:
+        shutil.copy(src, scratch)
+        pr = subprocess.run(["tlapm", "--toolbox", "0", "0", "SamplerProof.tla"], cwd=scratch, capture_output=True, text=True, timeout=900)
+        out = pr.stdout + pr.stderr
+        if "obligations proved" not in out or "failed" in out:
+            raise MachineryError("TLAPS does not re-prove spec/proofs/SamplerProof.tla: " + out[-300:])
+        ctx.notes["tlaps"] = [ln.strip() for ln in out.splitlines() if "obligations proved" in ln][-1]
+    finally:
+        shutil.rmtree(scratch, ignore_errors=True)
     wsets = [[2, 0, 1, 3, 1], [1, 1, 1, 1], [5, 1, 1, 1, 1, 1, 0, 2], [1], [3, 1, 2, 2, 1, 1, 4, 1, 1, 2, 1]]
     if not quick:
         wsets += [[1] * 16, [0, 0, 1, 1, 7, 1, 2]]
